@@ -322,6 +322,21 @@ def job_bfs(job):
             for oper in single_ops:
                 derived = make(graph)
                 apply_real(derived, oper, byname, pool)
+                if dname in ('copy', 'invert'):
+                    # differential oracle: the same operation on a graph with the same content built edit by edit must report
+                    # the same nodes / dependencies / dependees (sets per node; derived graphs must not share internal state)
+                    dedges = ref.edges if dname == 'copy' else {(y, x) for x, y in ref.edges}
+                    twin = build_from_ref(ref.nodes, dedges, byname, DepGraph)
+                    apply_real(twin, oper, byname, pool)
+                    try:
+                        o_der, o_twin = observe(derived, byname), observe(twin, byname)
+                        same = (sorted(o_der[0]), o_der[1], o_der[2]) == (sorted(o_twin[0]), o_twin[1], o_twin[2])
+                    except Exception as exc:  # pylint: disable=broad-except
+                        same, o_der, o_twin = False, repr(exc), None
+                    if not same:
+                        probs.append((f'C16|derived-then-edit|{dname}|{oper[0]}',
+                                      f'{oper} on graph.{dname}() reports {o_der}, the same edit on the same graph built edit by edit reports {o_twin}'))
+                        return probs
                 if concrete(graph) != snap:
                     probs.append((f'C16|alias|{dname}-shares-state',
                                   f'{oper} on graph.{dname}() modified the original'))
